@@ -572,6 +572,7 @@ class PortProtocol(_DeviceIdFilterMixin, _BaseProtocol):
         """Inform the FSM that the connection with the Transport has been lost."""
 
         super().connection_lost(err)
+        self._active_hgi = None  # the next connection_made() will set it (again)
         if self._context:
             self._context.connection_lost(err)  # is this safe, when KeyboardInterrupt?
 
